@@ -9,3 +9,6 @@ CONSTANTS
   Big = FALSE
 SPECIFICATION SpecTexts
 INVARIANT EmitText
+INVARIANT PDAEqualsRD
+INVARIANT UnbalancedRejected
+INVARIANT StrictImpliesLenient
